@@ -13,6 +13,7 @@ POOL = [(0,0,1),(0,1,1),(0,1,2),(1,1,1),(1,0,1),(1,0,2),(2,1,1),(2,0,2),(2,2,2),
 # work thread: 100..102 as 0..2, 103 explicit per-task loop next to the default loop, 104 body submits a task, 105 no default loop, 150+k = destructor only
 WT = [(100,0,1),(101,0,1),(102,0,1),(103,0,1),(104,0,1),(105,0,1),(150,0,1),(151,0,1)]
 HALF_DEADLINE = {(8,0,2),(8,2,2),(10,0,2),(56,0,2)}      # large at the thorough bounds: they get half the deadline so the tier's wall time stays bounded
+SPUR = {"s0_0_1", "s0_1_2", "s2_1_1", "s6_1_1", "s8_0_1", "s100_0_1", "s102_0_1"}      # configurations of the spurious-wake-up lane
 def cmds(exe, bound, tagp, only, dl):
     order = sorted(POOL + WT, key=lambda s: (-s[2], s[0]))      # two-worker configurations first (longest jobs first)
     c = [("%s:s%d_%d_%d" % ((tagp,) + s), [exe, str(s[0]), str(s[1]), str(s[2]), str(bound)],
@@ -28,6 +29,9 @@ def main(tier, args):
     res = vf.Result(); log = open(vf.BUILD + "/C05/log.txt", "w")
     env = {"VERIF_DEADLINE_S": str(dl), "VERIF_WORKERS": "4"}
     vf.run_procs(res, cmds(plain, bp, "plain", args.only, dl), env=env, log=log, jobs=6)
+    # spurious condition-variable wake-ups as one extra deviation (engine option SCHED_SPURIOUS): a wait that lost its predicate shows here only
+    spur = [c for c in cmds(plain, 1 if tier == "quick" else 2, "spur", args.only, dl) if c[0].split(":")[1] in SPUR]
+    vf.run_procs(res, spur, env=dict(env, SCHED_SPURIOUS="1"), log=log, jobs=6)
     vf.run_procs(res, cmds(asan, ba, "asan", args.only, dl), env=env, log=log, jobs=6)
     vf.run_procs(res, cmds(tsan, bt, "tsan", args.only, dl), env=dict(env, TSAN_OPTIONS="report_signal_unsafe=0:exitcode=0"), log=log, jobs=6)
     vf.finish(PID, tier, res, t0,
@@ -36,7 +40,7 @@ def main(tier, args):
                    "with priorities -9..7 incl. both boundary levels, getTaskStatus/cancel [also with the stale token of a finished or dropped task], snapshot, loop drain, "
                    "a task body that itself submits and queries a task, cleanup with queued/executing work followed by re-initialisation with fewer resident workers, "
                    "cleanup() or the destructor alone as the end; WorkThread with default, explicit per-task and no default loop); "
-                   "preemptions+deviations <= %d (plain build), <= %d (ASan/UBSan build, task objects de-pooled), <= %d (ThreadSanitizer under the scheduler: every explored schedule is race-checked); "
+                   "preemptions+deviations <= %d (plain build), <= %d (ASan/UBSan build, task objects de-pooled), <= %d (ThreadSanitizer under the scheduler: every explored schedule is race-checked); 7 configurations again with one spurious condition-variable wake-up per execution as a further deviation kind (bound 1 quick, 2 thorough); "
                    "a state = one complete schedule; outcomes = distinct (answers, per-task counts). Oracle per schedule against the harness's own record of accepted/started/finished/cancelled: "
                    "exactly-once on a worker, callback once on its loop's thread after the body, answers consistent in both directions, pick order by (priority, submission) decided from the submitted priorities, "
                    "bodies <= max, nothing runs or starts and no thread other than main is alive once cleanup()/destructor returned and the loop was drained, no worker post after that return; deadlock/horizon = violation"
